@@ -15,6 +15,14 @@ pub open spec fn seq_filter_map<T, U>(s: Seq<T>, g: spec_fn(T) -> Option<U>) -> 
     }
 }
 
+// `idx` selects a strictly increasing list of positions of a sequence of length n
+pub open spec fn idx_increasing(idx: Seq<int>, n: int) -> bool {
+    &&& forall|k: int| 0 <= k < idx.len() ==> 0 <= #[trigger] idx[k] < n
+    &&& forall|a: int, b: int| 0 <= a < b < idx.len() ==> idx[a] < idx[b]
+}
+// std::iter::empty()
+pub fn vx_empty_iter<T>() -> (r: VIter<T>) ensures r@ == Seq::<T>::empty() { VIter { items: Ghost(Seq::empty()) } }
+
 impl<T> VIter<T> {
     pub open spec fn view(&self) -> Seq<T> { self.items@ }
 
@@ -42,6 +50,10 @@ impl<T> VIter<T> {
     pub fn filter_map<U, F: Fn(T) -> Option<U>>(self, f: F) -> (r: VIter<U>)
         requires forall|x: T| f.requires((x,)),
         ensures forall|g: spec_fn(T) -> Option<U>| (forall|x: T, y: Option<U>| f.ensures((x,), y) ==> y == g(x)) ==> r@ == #[trigger] seq_filter_map(self@, g),
+            // relational form (closures whose result is not a function of the argument): `idx` are the positions that were kept
+            exists|idx: Seq<int>| #[trigger] idx_increasing(idx, self@.len() as int) && idx.len() == r@.len()
+                && (forall|k: int| 0 <= k < idx.len() ==> f.ensures((self@[#[trigger] idx[k]],), Some(r@[k])))
+                && (forall|j: int| 0 <= j < self@.len() && !idx.contains(j) ==> f.ensures((#[trigger] self@[j],), None)),
     { unimplemented!() }
 
     // Iterator::flat_map (the closure returns an iterator; the results are concatenated in order)
